@@ -46,7 +46,9 @@ class VirtualHosts(BaseComponent):
         self.domains = domains
         self.trusted_gateways = trusted_gateways
 
-    @handler('request', priority=1.0)
+    # (above tools.ReverseProxy, which replaces request.remote by what a header
+    # says: the trust decision must see the address of the real peer)
+    @handler('request', priority=1.5)
     def _on_request(self, event, request, response):
         path = request.path.strip('/')
 
